@@ -54,6 +54,9 @@ Definition sp_tnt_recorded_ok (Sp : sparse Z) (n : nat) (shp rows cols : list na
   end.
 Definition sp_path_refused (Sp : sparse Z) (n : nat) : bool :=
   match sp_nvecs_tnt Sp n with None => true | Some _ => false end.
+(* wave 5 — the request with the mode as Python passes it (an integer; /repo 453f75b: range test first) *)
+Definition sp_path_refused_z (Sp : sparse Z) (n : Z) : bool :=
+  match sp_nvecs_tnt_z Sp n with None => true | Some _ => false end.
 
 (* sparse-core branch with the H the code computes (C14_gram_tucker_sparse_core_code): the sptensor.ttm chain; H as RECORDED
    (core.ttm(V) is a dense tensor: shape and F-order data) against the chain model *)
